@@ -22,6 +22,10 @@ Decided clauses:
   R20.6 destructors are total: every release that argon2_free_instance / free_memory / escrypt_free_region perform
         on some path is performed on every returning path unless the released pointer is NULL there (or an
         earlier release reported failure).
+  R20.7 ownership across calls (computed summaries, no table): F "may release parameter k" when on some path F hands exactly that
+        parameter to free / munmap or to a callee that may release it. No exported function may release one of its own pointer
+        parameters (the caller's output buffer is never the library's to free), and a pointer handed to a callee that may
+        release it is not released again on the same path.
 NOT decided: that malloc/mmap themselves behave per POSIX; arithmetic of the requested sizes.
 """
 from .. import terms as T
@@ -419,6 +423,8 @@ def analyse(prog, chk, cname):
         chk.ob("R20.6", d, "%d returning path(s), %d distinct release(s)" % (len(ps), len(universe)), True, key="R20.6 %s scan" % dname)
     chk.floor("R20.6", "destructors examined" + tag, 1 if ndest >= 0 else 0, 1)
 
+    param_release_rule(prog, chk, cg, reach, tag)
+
     # ---- R20.2b: results of fallible calls reach a branch or a return (flow-insensitive use-def) -----
     ndrop = 0
     for fn in scope:
@@ -484,3 +490,101 @@ def analyse(prog, chk, cname):
             chk.ob("R20.3", fn, "match reported => an algorithm-specific verifier returned 0 on (str, passwd)", ok,
                    loc=fn.loc(p.end_iid), path=None if ok else p, key="R20.3 crypto_pwhash_str_verify")
         chk.floor("R20.3", "success exits of verify functions", n, 7)
+
+
+def _as_param(a):
+    """('arg', k) when the term is exactly a parameter (possibly through a zero offset)"""
+    if a is None:
+        return None
+    if a[0] == "arg":
+        return a
+    if a[0] == "gep" and a[1][0] == "arg" and a[2] == 0 and not a[3]:
+        return a[1]
+    if a[0] == "cast" and a[1] in ("bitcast",):
+        return _as_param(a[2])
+    return None
+
+
+def param_release_rule(prog, chk, cg, reach, tag):
+    """R20.7: may-release-parameter summaries (fixpoint over the call graph) and their two consumers"""
+    LIBC = {"free": 0, "munmap": 0}
+    fns = [cg.by_key[k] for k in sorted(reach, key=str) if not cg.by_key[k].decl]
+    FP = {}            # function key -> {param index: (inst id, callee name)}
+    paths_of = {}
+
+    def callees(fn):
+        out = set()
+        for _iid, res in cg.sites[fn.key]:
+            for r in res:
+                out.add(r[1].key if r[0] == "fn" else (r[1] if r[0] == "ext" else None))
+        return out
+    callee_sets = {f.key: callees(f) for f in fns}
+    changed = True
+    rounds = 0
+    while changed and rounds < 8:
+        changed = False
+        rounds += 1
+        for f in fns:
+            cs = callee_sets[f.key]
+            if not (cs & set(LIBC) or any(k in FP and FP[k] for k in cs)):
+                continue
+            if f.key not in paths_of:
+                try:
+                    paths_of[f.key] = cm.paths(prog, f)
+                except AnalysisBroken:
+                    paths_of[f.key] = []
+            mine = FP.setdefault(f.key, {})
+            for p in paths_of[f.key]:
+                for u in p.calls():
+                    un = u.callee_name()
+                    idxs = []
+                    if un in LIBC:
+                        idxs = [LIBC[un]]
+                    elif u.callee[0] == "fn" and FP.get(u.callee[1].key):
+                        idxs = list(FP[u.callee[1].key])
+                    for j in idxs:
+                        if j >= len(u.args):
+                            continue
+                        a = _as_param(u.args[j])
+                        if a is not None and a[1] not in mine:
+                            mine[a[1]] = (u.iid, un or "callee")
+                            changed = True
+    nsum = sum(1 for v in FP.values() if v)
+    npub = 0
+    for f in fns:
+        if not f.public or f.sname == "sodium_free":
+            continue
+        npub += 1
+        got = FP.get(f.key) or {}
+        for k, (iid, un) in sorted(got.items()):
+            chk.ob("R20.7", f, "an exported function never releases one of its pointer parameters" + tag, False, loc=f.loc(iid),
+                   detail="%s hands its parameter %s to %s, which may free it: on that path the library frees a buffer that belongs to the "
+                   "caller" % (f.sname, f.params[k]["name"], un), key="R20.7 %s frees-param %s" % (f.sname, f.params[k]["name"]))
+        if not got:
+            chk.ob("R20.7", f, "an exported function never releases one of its pointer parameters" + tag, True, key="R20.7 %s" % f.sname)
+    # double release through a callee that may release its argument
+    ndbl = 0
+    for f in fns:
+        for p in paths_of.get(f.key, ()):
+            evs = list(p.calls())
+            for x, u in enumerate(evs):
+                if u.callee[0] != "fn" or not FP.get(u.callee[1].key):
+                    continue
+                for j in FP[u.callee[1].key]:
+                    if j >= len(u.args):
+                        continue
+                    a = u.args[j]
+                    if a is None or a[0] == "c":
+                        continue
+                    ndbl += 1
+                    again = [w for w in evs[x + 1:] if
+                             (w.callee_name() in LIBC and w.args and w.args[0] == a) or
+                             (w.callee[0] == "fn" and any(i < len(w.args) and w.args[i] == a for i in FP.get(w.callee[1].key) or ()))]
+                    # (a destructor that was told to release and is followed by nothing is the normal case)
+                    ok = not again
+                    chk.ob("R20.7", f, "a pointer handed to a callee that may release it is not released again" + tag, ok,
+                           loc=f.loc(again[0].iid) if again else f.loc(u.iid), path=None if ok else p,
+                           detail="" if ok else "%s may free its argument (%s); %s releases the same pointer again at %s" %
+                           (u.callee_name(), f.loc(u.iid), f.sname, f.loc(again[0].iid)), key="R20.7 %s double-release" % f.sname)
+    chk.floor("R20.7", "functions with a may-release-parameter summary" + tag, nsum, 2)
+    chk.floor("R20.7", "exported functions in scope" + tag, npub, 15)
